@@ -485,11 +485,25 @@ def check_balance(case, ctx):
     ctx.label('balanced' if balanced else 'unbalanced:%s' % p)
     if fractional:
         ctx.label('fractional')
+    comps_before = [dict(s_.elements) for s_ in r + pr + (t or [])]
     try:
         rxn.check_element_balance()
         accepted = True
     except ValueError:
         accepted = False
+    # the check is a question, not an operation: asked again it answers the same, and the species' compositions are untouched
+    try:
+        rxn.check_element_balance()
+        again = True
+    except ValueError:
+        again = False
+    if again != accepted:
+        ctx.fail('C14.balance/second-check-answers-differently', 'first %s, second %s: reactants %r products %r' % (
+            'accepts' if accepted else 'rejects', 'accepts' if again else 'rejects',
+            [(c_, str(f)) for c_, f in react], [(c_, str(f)) for c_, f in prod]))
+    if [dict(s_.elements) for s_ in r + pr + (t or [])] != comps_before:
+        ctx.fail('C14.balance/check-modifies-species-composition', '%r -> %r' % (
+            comps_before, [dict(s_.elements) for s_ in r + pr + (t or [])]))
     if balanced and not accepted:
         ctx.fail('C14.balance/balanced-rejected', 'reactants %r products %r ts %r' % (
             [(c_, str(f)) for c_, f in react], [(c_, str(f)) for c_, f in prod], ts))
